@@ -118,4 +118,12 @@ REGISTRY = {
         "check_redundant_circuit) in both argument orders; remove_redundant_circuits and CircuitStorage on shuffled "
         "lists: SoundEq, Symmetric, ReflexiveOnCopy, WrapInsensitive, IdentityInsensitive, DedupComplete.",
         "", "DESIGN.md 6/C15"),
+    "C14": (
+        "TLA+ syntax and standard denotation of the emitted openQASM subset (Qasm.tla); exported text parsed by an "
+        "independent tokenizer and executed by the spec; re-imported circuits compared per wire and semantically by TLC",
+        "All TLC-enumerated programs of <= 2 operations on 1e+1p+1c and random circuits with all 24 wrappers, P-dagger, "
+        "identities, all classically controlled forms, several classical registers: QasmDenotes (standard semantics over "
+        "all outcome branches = circuit semantics), Qasm / JsonRoundTrip (registers, expanded per-wire sequences), "
+        "attributes agree with wires, CompiledSame, Deterministic export.",
+        "", "DESIGN.md 6/C14"),
 }
